@@ -139,19 +139,36 @@ def gen_model(rng, quick):
     mo = rng.randrange(1, 13)
     d = rng.randrange(1, 29)
     # seconds of day in 1e-7 s units
-    frac_mode = rng.choice(["int", "int", "frac", "frac7", "tenth"])
+    frac_mode = rng.choice(["int", "int", "frac", "frac7", "tenth", "highrate", "highrate"])
     step = rng.choice([1, 30, 300, 900, 1])
-    t0 = rng.randrange(0, 86400 - nep * step - 2) * 10 ** 7
+    step7 = step * 10 ** 7
     epochs = []
-    for k in range(nep):
-        t = t0 + k * step * 10 ** 7
-        if frac_mode == "frac":
-            t += rng.randrange(0, 10 ** 7 // 1000) * 1000          # microsecond multiples... times 1e-4 s
-        elif frac_mode == "frac7":
-            t += rng.randrange(0, 10 ** 7) if k else rng.choice([1, 9999999, 5000000, 1234567])
-        elif frac_mode == "tenth":
-            t += rng.choice([0, 5000000, 2500000, 1000000])
-        epochs.append(t)
+    if frac_mode == "highrate":
+        # high-rate products: sub-second epoch interval, several epochs inside one whole second, runs across second /
+        # minute / hour boundaries (epochs that agree up to the whole second must keep their own fraction)
+        step7 = rng.choice([1000000, 2500000, 5000000, 2000000, 500000, 1250000, 3333333, 1, 100, 7500000])
+        if nep < 3:
+            nep = rng.choice([3, 4, 5, 8])
+        u = rng.random()
+        if u < 0.45:      # cross a minute (or hour) boundary in the middle of the run
+            edge = rng.randrange(1, 1440) * 60 * 10 ** 7
+            t0 = max(0, edge - rng.randrange(1, nep) * step7 - rng.choice([0, 0, step7 // 2]))
+        elif u < 0.7:     # start on a whole second
+            t0 = rng.randrange(0, 86000) * 10 ** 7
+        else:
+            t0 = rng.randrange(0, 86000 * 10 ** 7)
+        epochs = [t0 + k * step7 for k in range(nep)]
+    else:
+        t0 = rng.randrange(0, 86400 - nep * step - 2) * 10 ** 7
+        for k in range(nep):
+            t = t0 + k * step * 10 ** 7
+            if frac_mode == "frac":
+                t += rng.randrange(0, 10 ** 7 // 1000) * 1000          # multiples of 1e-4 s
+            elif frac_mode == "frac7":
+                t += rng.randrange(0, 10 ** 7) if k else rng.choice([1, 9999999, 5000000, 1234567])
+            elif frac_mode == "tenth":
+                t += rng.choice([0, 5000000, 2500000, 1000000])
+            epochs.append(t)
     epochs = sorted(set(epochs))
     pv = "V" if rng.random() < 0.35 else "P"
     base_pv = rng.choice([12500000, 12500000, 20000000, 10000000, 15000000, 11000000, 0])
@@ -164,7 +181,7 @@ def gen_model(rng, quick):
              orb=rng.choice(["HLM", "FIT", "EXT", "BCT", txt(3), txt(1)]),
              agency=rng.choice(["IGS", "AIUB", "NGS", "ESOC", txt(4), txt(2)]),
              ftype=rng.choice(["G", "M", "R", "E", "L", "C", "J"]),
-             week=rng.randrange(0, 4000), sow=rng.randrange(0, 604800 * 10 ** 8), interval=step * 10 ** 8,
+             week=rng.randrange(0, 4000), sow=rng.randrange(0, 604800 * 10 ** 8), interval=step7 * 10,
              mjd=rng.randrange(40000, 70000), mjdfrac=rng.randrange(0, 10 ** 13),
              ncomment=4 if ver == "c" else rng.randrange(0, 8), frac_mode=frac_mode,
              cut_mode=rng.choice(["full", "full", "clock", "mixed", "sdev_only", "padded"]),
@@ -387,6 +404,34 @@ CORPUS = [
      "PG01  10138.887745 -20456.557725 -13455.830128     13.095853",
      "PG02 -21691.921884  13338.131173  -6326.904893    599.417359 10  7  8 114 EP  MP",
      "EOF"],
+    # high-rate file: 0.25 s interval, four epochs in the whole second 59 and on across the minute boundary
+    ["#dP2024  7 14 12 59 59.00000000       7 u+U   IGS20 FIT  GFZ",
+     "## 2323  46799.00000000     0.25000000 60505 0.5416550925926",
+     "+    2   G05E11  0  0  0  0  0  0  0  0  0  0  0  0  0  0  0",
+     "++         0  0  0  0  0  0  0  0  0  0  0  0  0  0  0  0  0",
+     "%c M  cc GPS ccc cccc cccc cccc cccc ccccc ccccc ccccc ccccc",
+     "%c cc cc ccc ccc cccc cccc cccc cccc ccccc ccccc ccccc ccccc",
+     "%f  1.2500000  1.025000000  0.00000000000  0.000000000000000",
+     "%f  0.0000000  0.000000000  0.00000000000  0.000000000000000",
+     "%i    0    0    0    0      0      0      0      0         0",
+     "%i    0    0    0    0      0      0      0      0         0",
+     "*  2024  7 14 12 59 59.00000000",
+     "PG05  15000.000001 -20000.000002   5000.000003     10.000001",
+     "PE11 -15000.000001  20000.000002  -5000.000003      0.000000  0  0  0   0",
+     "*  2024  7 14 12 59 59.25000000",
+     "PG05  15000.100001 -20000.100002   5000.100003     10.000002",
+     "PE11 -15000.100001  20000.100002  -5000.100003     -0.000001",
+     "*  2024  7 14 12 59 59.50000000",
+     "PG05  15000.200001 -20000.200002   5000.200003     10.000003",
+     "*  2024  7 14 12 59 59.75000000",
+     "PG05  15000.300001 -20000.300002   5000.300003     10.000004",
+     "*  2024  7 14 13  0  0.00000000",
+     "PG05  15000.400001 -20000.400002   5000.400003     10.000005",
+     "*  2024  7 14 13  0  0.25000000",
+     "PG05  15000.500001 -20000.500002   5000.500003     10.000006",
+     "*  2024  7 14 13  0  0.25000010",
+     "PG05  15000.600001 -20000.600002   5000.600003     10.000007",
+     "EOF"],
 ]
 
 
@@ -433,6 +478,10 @@ def run(ctx):
             ctx.count(f"nsat:{len(m['sats'])}")
             ctx.count(f"nepochs:{len(m['epochs'])}")
             ctx.count(f"fraction:{m['frac_mode']}")
+            secs = [t // 10 ** 7 for t in m["epochs"]]
+            ctx.count("epochs_sharing_a_whole_second:" + ("yes" if len(set(secs)) < len(secs) else "no"))
+            if len(set(t // (60 * 10 ** 7) for t in m["epochs"])) > 1 and len(set(secs)) < len(secs):
+                ctx.count("highrate_run_crosses_minute")
             ctx.count(f"lines:{m['cut_mode']}")
             ctx.count(f"ep_lines:{m['ep_lines']}")
             for r in m["recs"]:
@@ -496,7 +545,8 @@ def run(ctx):
     return ctx.finish(
         level="proof",
         rule=("SP3-c/d files rendered by an independent writer from random models: 1..90 satellites of any constellation "
-              "letter, 1..50 epochs incl. fractions down to 1e-7 s, P and P+V files with EP/EV lines, sentinels 0.000000 / "
+              "letter, 1..50 epochs incl. fractions down to 1e-7 s and high-rate runs (interval 1e-7..0.75 s, several epochs per "
+              "whole second, crossing minute boundaries), P and P+V files with EP/EV lines, sentinels 0.000000 / "
               "999999.999999, blank/partial accuracy columns, lines cut after the clock field or padded to 80, GPS/UTC, "
               "bases 1.25/2/1/1.5/1.1/0; observables as_dict, meta, as_dataset (jd1/jd2, sat_pos, sat_clock_bias, "
               "satellite, system). evaluations = position records compared; distinct_nontrivial = distinct files with >= 1 record"),
